@@ -69,7 +69,7 @@ def assist(project, source, position, filename=None, debug=False):
             names = value.attr_list(ctx)
     else:
         name = get_marked_name(source.tree)
-        if name:
+        if name and hasattr(name, 'flow'):  # a name the analysis never reached has no flow
             names = name.flow.names_at(position)
 
     return prefix, sorted(names)
